@@ -165,6 +165,8 @@ func enumHistories(ctx *ev.Ctx, fn func(*Config, HistCase)) {
 		{Code: 25, Flags: 0x40, V: atoms.Val{K: atoms.KOctet, S: []byte("abc")}},
 		{Code: 60002, Flags: 0x80, Vendor: 4242, V: atoms.Val{K: atoms.KUnknown, S: []byte{9}}},
 		{Code: 268, Flags: 0x40, V: atoms.Val{K: atoms.KU32, U: 2001}},
+		// vendor id without the V flag: NewAVP adds the flag (and the four vendor bytes)
+		{Code: 60003, Flags: 0x40, Vendor: 4242, V: atoms.Val{K: atoms.KUnknown, S: []byte{7, 7, 7}}},
 	}
 	names := map[uint32]string{264: "Origin-Host", 1: "User-Name", 25: "Class", 268: "Result-Code"}
 	var ops []HistOp
@@ -174,7 +176,7 @@ func enumHistories(ctx *ev.Ctx, fn func(*Config, HistCase)) {
 			ops = append(ops, HistOp{Op: "new-name", Atom: a, Name: names[a.Code]})
 		}
 	}
-	ops = append(ops, HistOp{Op: "new-int", Atom: base[0]}, HistOp{Op: "new-u32", Atom: base[1]}, HistOp{Op: "new-u32", Atom: base[4]},
+	ops = append(ops, HistOp{Op: "new-int", Atom: base[0]}, HistOp{Op: "new-u32", Atom: base[1]}, HistOp{Op: "new-u32", Atom: base[4]}, HistOp{Op: "new-u32", Atom: base[6]},
 		HistOp{Op: "marshal"})
 	var rec func(prefix []HistOp)
 	rec = func(prefix []HistOp) {
@@ -234,7 +236,7 @@ func runC02(ctx *ev.Ctx) {
 			ctx.Report("", generalise(what), what+" | case: "+h.Desc(), map[string]interface{}{"hist": h})
 		}
 	})
-	ctx.Rule = rule + " PLUS every sequence of <=4 (thorough 5) assembly operations {NewAVP by int / uint32 / name, AddAVP, InsertAVP, Marshal} over six atoms with payload length mod 4 = 0..3, with and without vendor id, checking Header.MessageLength and the reference image after every operation; PLUS complete sweeps (see sweep_* keys)."
+	ctx.Rule = rule + " PLUS every sequence of <=4 (thorough 5) assembly operations {NewAVP by int / uint32 / name, AddAVP, InsertAVP, Marshal} over seven atoms with payload length mod 4 = 0..3, with and without vendor id (one with a vendor id but no V flag given), checking Header.MessageLength and the reference image after every operation; PLUS complete sweeps (see sweep_* keys)."
 	ctx.Assume = []string{"refcodec (independent RFC 6733 encoder/decoder, written from the RFC) is correct; self-tested against the RFC layouts"}
 }
 
